@@ -116,7 +116,7 @@ def sweep(tier):
     axis 0 on a grid whose other axes are short, and for partition axes 1 and 2 on
     grids whose axis 0 is long (so that using the wrong axis length is visible)."""
     import random
-    NG = 64
+    NG = 128 if tier == 'thorough' else 64
     rng = random.Random(20260926)
     for coord in (0, 1, 2):
         for n1d in range(1, NG + 1):
